@@ -340,6 +340,121 @@ fn choice_case(flavour: usize, n: usize) -> (u64, u64, Option<(String, String)>,
     (st.leaves, st.choice_points, None, law.mass.len())
 }
 
+/// Sources with more members than a `u32` can count.  Zero-sized members cost nothing: construction must
+/// succeed and report the number of members, sampling must return.  One byte per member (4 GiB of lazily
+/// zeroed memory, the second half set to 1): with the grid of two cells a uniform choice yields 0 and 1
+/// with probability exactly 1/2 each (even member counts; the 64-bit range draw maps the cells to the
+/// first and the third quarter).
+fn huge_sources(found: &mut Vec<(String, String, Value)>, notes: &mut Vec<String>) -> u64 {
+    let mut n_runs = 0u64;
+    let mut report = |key: String, what: String, replay: Value| found.push((key, what, replay));
+    // (a) zero-sized members
+    for n in [(1usize << 32) - 1, 1 << 32, (1 << 32) + 1, (1 << 32) + 2, 1 << 33, 3 << 32, usize::MAX] {
+        let unit_vec = |n: usize| -> Vec<()> {
+            let mut v: Vec<()> = Vec::new();
+            // a vector of zero-sized values has unlimited capacity; no memory is involved
+            unsafe { v.set_len(n) };
+            v
+        };
+        for flavour in [0usize, 1, 2, 14] {
+            n_runs += 1;
+            let r = mcx::guarded(|| {
+                let mut env = Env::new(vec![]);
+                let mut rng = ChoiceRng::new(&mut env, Alphabet::Grid(4));
+                let v = unit_vec(n);
+                let counted: Result<usize, ()> = match flavour {
+                    0 => IntoDistribution::<()>::into_distribution(v).map(|d| { let _: () = d.sample(&mut rng); ChoicesDistribution::num_choices(&d).get() }).map_err(|_| ()),
+                    1 => IntoDistribution::<&()>::into_distribution(&v).map(|d| { let _: &() = d.sample(&mut rng); ChoicesDistribution::num_choices(&d).get() }).map_err(|_| ()),
+                    2 => IntoDistribution::<()>::into_distribution(&v).map(|d| { let _: () = d.sample(&mut rng); ChoicesDistribution::num_choices(&d).get() }).map_err(|_| ()),
+                    _ => OneOfCloning::<Vec<()>, ()>::new(v).map(|d| { let _: () = d.sample(&mut rng); ChoicesDistribution::num_choices(&d).get() }).map_err(|_| ()),
+                };
+                counted
+            });
+            let label = format!("{} on {n} zero-sized members", FLAVOURS[flavour]);
+            let bad = match r {
+                Err(p) => Some(("panic", format!("{label}: panicked: {p}"))),
+                Ok(Err(())) => Some(("rejected", format!("{label}: construction was rejected although the source is not empty"))),
+                Ok(Ok(c)) if c != n => Some(("num-choices", format!("{label}: reports {c} members"))),
+                _ => None,
+            };
+            if let Some((k, w)) = bad {
+                report(format!("choice/{flavour}/huge/{k}"), w, json!({"check":"C18","scenario":"huge","flavour":flavour,"n":n.to_string()}));
+            }
+        }
+    }
+    // (b) one byte per member
+    for n in [1usize << 32, (1 << 32) + 2] {
+        let mut v: Vec<u8> = Vec::new();
+        if v.try_reserve_exact(n).is_err() {
+            notes.push(format!("allocation of {n} bytes refused"));
+            continue;
+        }
+        drop(v);
+        let mut v: Vec<u8> = vec![0u8; n];
+        for x in &mut v[n / 2..] {
+            *x = 1;
+        }
+        for flavour in [1usize, 2, 0] {
+            // (flavour 0 takes the vector: last)
+            n_runs += 2;
+            let mut law: Law<u8> = Law::new();
+            let mut panicked: Option<String> = None;
+            let mut rejected = false;
+            let mut sig_ok = true;
+            let mut owned: Option<Result<OneOfCloning<Vec<u8>, u8>, ()>> = None;
+            if flavour == 0 {
+                owned = Some(IntoDistribution::<u8>::into_distribution(std::mem::take(&mut v)).map_err(|_| ()));
+            }
+            let st = explore(
+                |env| {
+                    let mut rng = ChoiceRng::new(env, Alphabet::Grid(2));
+                    let r = mcx::guarded(|| match flavour {
+                        1 => IntoDistribution::<&u8>::into_distribution(&v).map(|d| *d.sample(&mut rng)).map_err(|_| ()),
+                        2 => IntoDistribution::<u8>::into_distribution(&v).map(|d| d.sample(&mut rng)).map_err(|_| ()),
+                        _ => match owned.as_ref().unwrap() {
+                            Ok(d) => Ok(d.sample(&mut rng)),
+                            Err(()) => Err(()),
+                        },
+                    });
+                    drop(rng);
+                    (r, env.draws())
+                },
+                |_, w, (r, draws)| {
+                    if draws != 1 {
+                        sig_ok = false;
+                    }
+                    match r {
+                        Ok(Ok(b)) => law.add(b, w),
+                        Ok(Err(())) => rejected = true,
+                        Err(p) => panicked = Some(p),
+                    }
+                },
+                1000,
+            );
+            let label = format!("{} on {n} one-byte members (first half 0, second half 1)", FLAVOURS[flavour]);
+            let mut want: Law<u8> = Law::new();
+            want.add(0, Ratio::new(1, 2));
+            want.add(1, Ratio::new(1, 2));
+            let bad = if let Some(p) = panicked {
+                Some(("panic", format!("{label}: panicked: {p}")))
+            } else if rejected {
+                Some(("rejected", format!("{label}: construction was rejected although the source is not empty")))
+            } else if sig_ok && !st.capped && st.total_weight_is_one && law != want {
+                Some(("law", format!("{label}: value law {} but a uniform choice gives {}", law.render(), want.render())))
+            } else {
+                None
+            };
+            if let Some((k, w)) = bad {
+                report(format!("choice/{flavour}/huge/{k}"), w, json!({"check":"C18","scenario":"huge","flavour":flavour,"n":n.to_string(),"bytes":true}));
+            }
+        }
+    }
+    n_runs
+}
+fn huge_bound() -> Value {
+    json!("zero-sized members: 2^32-1, 2^32, 2^32+1, 2^32+2, 2^33, 3*2^32, usize::MAX (construction, member count, one sample); one-byte members: 2^32 and 2^32+2 (exact value law 1/2, 1/2 on the grid of two cells); owning, borrowing and cloning flavours")
+}
+
 /// collection generators: exactly `size` elements, element i is the i-th product
 fn collection_case(kind: usize, size: usize) -> (u64, u64, Option<(String, String)>, usize) {
     let names = ["Vec<u64> via into_collection_generator", "Vec<u64> via to_collection_generator", "Bitstring", "Plushy", "Vec<EcIndividual> via with_scorer", "Generator::new"];
@@ -454,6 +569,17 @@ pub fn run(run: &mut Run) {
         }
     }
     run.bound("large_source_sizes", json!(big));
+    let (mut found, mut notes) = (vec![], vec![]);
+    let h = huge_sources(&mut found, &mut notes);
+    for (k, w, r) in found {
+        run.violation(k, w, r);
+    }
+    if !notes.is_empty() {
+        run.note("huge.skipped", json!(notes));
+    }
+    run.bound("huge_sources", huge_bound());
+    run.evaluations += h;
+    run.transitions += h;
     let sizes: Vec<usize> = (0..=max_n).chain(if run.quick() { (7usize..=130).chain([255, 256, 257]).collect::<Vec<usize>>() } else { (7usize..=300).chain([1000, 1009, 4096]).collect() }).collect();
     run.bound("collection_sizes", json!(sizes));
     // nested: a collection of `outer` collections of `inner` elements each, in generation order
@@ -544,6 +670,17 @@ pub fn replay(v: &Value) -> bool {
     if v["scenario"] == json!("nested") || v["scenario"] == json!("genome-size") {
         println!("nested collections are re-checked by the full run: ./check C18");
         return false;
+    }
+    if v["scenario"] == json!("huge") {
+        let (mut found, mut notes) = (vec![], vec![]);
+        huge_sources(&mut found, &mut notes);
+        for (k, w, _) in &found {
+            println!("MISMATCH [{k}]: {w}");
+        }
+        if found.is_empty() {
+            println!("replay: property held");
+        }
+        return found.is_empty();
     }
     let r = if v["scenario"] == json!("choice") {
         choice_case(v["flavour"].as_u64().unwrap_or(0) as usize, v["n"].as_u64().unwrap_or(0) as usize)
